@@ -427,6 +427,25 @@ def sweep_overrange():
                         out.append(P(0x1234, tmpl[text] | 1, 0x4142 + 0x0101 * eb, 0x4344 + 0x0101 * ed, 0, eb, ec, ed))
     return out
 
+def sweep_edges():
+    """values at the edges of their ranges, each received on a parser that knows nothing yet (fresh, after clear, after init), once
+    and twice, in normal mode and under the extended check: PI 0x0000/0xFFFF/…, PTY 0/31, ECC 0x00/0xFF and the edges of the
+    table ranges, AF codes 0/1/204/205/224/250/255"""
+    out = ["new"] + ALL_CBS
+    pis = [0x0000, 0x0001, 0x00FF, 0x0100, 0x0FFF, 0x1000, 0x7FFF, 0x8000, 0xF000, 0xFF00, 0xFFFE, 0xFFFF]
+    for ext in (0, 1):
+        for reset in ("clear", "init", "new"):
+            for pi in pis:
+                out += [reset] + (ALL_CBS if reset != "clear" else []) + ["x %d" % ext]
+                g0 = P(pi, 0x0000 | (31 << 5) | 0x0400 | 0x18, 0x01CC, 0x4142)      # PTY 31, TP, TA, MS set; AF 1 and 204
+                g1 = P(pi, 0x1000, 0x00FF if pi & 1 else 0x0000, 0)                  # ECC 0xFF / 0x00
+                g2 = P(pi, 0x0000, 0xCD00, 0x4142)                                   # PTY 0, everything clear; AF 205 and 0
+                out += [g0, g0, g1, g1, g2, g2, P(pi ^ 0xFFFF, 0x0000, 0xE0FA, 0x4142), g0]
+    for ecc in (0x9F, 0xA0, 0xA6, 0xA7, 0xCF, 0xD0, 0xD4, 0xD5, 0xDF, 0xE0, 0xE5, 0xE6, 0xEF, 0xF0, 0xF4, 0xF5, 0xFF, 0x00):
+        for pi in (0x0ABC, 0x1ABC, 0xFABC, 0xFFFF, 0x0000):
+            out += ["clear", "x 0", P(pi, 0x1000, ecc, 0), P(pi, 0x1000, 0x8000 | ecc, 0)]
+    return out
+
 def sweep_rt_levels(stride=1, phase=0):
     """RT scenarios over every combination of thresholds and error levels of the stored group: store one group for flag X
     (so that every stored cell has the same weighted level), switch to Y, switch back to X with every text block
@@ -444,13 +463,86 @@ def sweep_rt_levels(stride=1, phase=0):
                                     n += 1
                                     if (n + phase) % stride: continue
                                     vb = 0x0800 if ver else 0
+                                    seg = 15 if (x + ver + eb + ec + ed + back + ti) % 2 == 0 else 1      # every other scenario: only the LAST segment holds text
                                     out += ["clear", "c 1 0 %d" % ti, "c 1 1 %d" % td,
-                                            P(0x1234, 0x2000 | vb | (x << 4) | 1, 0x4142, 0x4344, 0, eb, ec, ed),
+                                            P(0x1234, 0x2000 | vb | (x << 4) | seg, 0x4142, 0x4344, 0, eb, ec, ed),
                                             P(0x1234, 0x2000 | vb | ((1 - x) << 4) | 2, 0x4546, 0x4748, 0, 0, 3 if back else 0, 3 if back else 0)]
                                     if back == 2:   # a noisy (accepted) group of the old flag in between
                                         out.append(P(0x1234, 0x2000 | vb | (x << 4) | 1, 0x494A, 0x4B4C, 0, min(ti, 1), 3, 3))
                                     out.append(P(0x1234, 0x2000 | vb | (x << 4) | 3, 0x0101, 0x0101, 0, 0, 3, 3))
                                     out.append(P(0x1234, 0x2000 | vb | ((1 - x) << 4) | 3, 0x0D0D, 0x0D0D, 0, 0, 0, 0))
+    return out
+
+def sweep_rt_flag_histories(length=4):
+    """C08: every history of `length` steps over {2A group with flag A / B and block B error-free / corrected (level 1), clear}, on a
+    fresh parser, with the information-block threshold at 0 (the corrected ones are rejected as text) and at 1 (accepted): the
+    whole A/B protocol including what the very first flag after a reset does"""
+    import itertools
+    out = []
+    steps = [(0, 0), (0, 1), (1, 0), (1, 1), None]
+    for info in (0, 1):
+        for h in itertools.product(steps, repeat=length):
+            if h[0] is None: continue
+            out += ["new", "r 9 1", "c 1 0 %d" % info, "c 1 1 1"]
+            for k, st in enumerate(h):
+                if st is None: out.append("clear")
+                else:
+                    fl, eb = st
+                    out.append(P(0x1234, 0x2000 | (fl << 4) | (k % 2), 0x4141 + 0x0101 * k, 0x6161 + 0x0101 * k, 0, eb, 0, eb))
+    return out
+
+def sweep_af_histories():
+    """C10: every history of three 0A groups whose AF pairs are drawn from three codes (9 pairs, 729 histories), and every history
+    of four groups over two codes plus the LF/MF marker 250 and the filler 205, each on a cleared parser, in both check modes.
+    The list saturates within a few hundred random groups, so what happens on the first receptions needs its own sweep."""
+    import itertools
+    out = []
+    for ext in (0, 1):
+        out += ["new"] + ALL_CBS + ["x %d" % ext]
+        pairs3 = [(a << 8) | b for a in (10, 20, 30) for b in (10, 20, 30)]
+        for h in itertools.product(pairs3, repeat=3):
+            out.append("clear")
+            for k, c in enumerate(h): out.append(P(0x1234, 0x0008 | (k & 3), c, 0x2020))
+        pairs2 = [(a << 8) | b for a in (10, 204, 250, 205) for b in (10, 204)]
+        for h in itertools.product(pairs2, repeat=4):
+            if len(set(h)) == 1: continue
+            out.append("clear")
+            for k, c in enumerate(h): out.append(P(0x1234, 0x0008 | (k & 3), c, 0x2020))
+    return out
+
+def sweep_rt_sums():
+    """RT buffers filled so that sums over their cells hit the edges of 8-bit arithmetic — the number of received cells (0, 1, 2, …, 63,
+    64) and the sum of (10 - level) over the cells equal to 255, 256, 257, 511, 512 — followed by an A/B switch away and back with
+    all text rejected: anything accumulated in a type whose width depends on the build (rdsparser_string_t is wchar_t or one byte)
+    shows here"""
+    out = ["new"] + ALL_CBS + ["c 1 0 2", "c 1 1 2"]
+    lvl = {10: (0, 0), 9: (1, 0), 8: (0, 1), 7: (2, 0), 6: (1, 1), 5: (0, 2), 4: (2, 1), 3: (1, 2), 1: (2, 2)}   # deficit -> (eb, e_data)
+    def scenario(groups, x=0):
+        o = ["clear", "c 1 0 2", "c 1 1 2"]
+        for seg, (dc, dd) in enumerate(groups):
+            # one 2A group per segment; block B error must serve both data blocks: pick a pair with the same eb
+            ebc, ec = lvl[dc]; ebd, ed = lvl[dd]
+            if ebc != ebd:
+                o.append(P(0x1234, 0x2000 | (x << 4) | seg, 0x4142, 0x0101, 0, ebc, ec, 3))
+                o.append(P(0x1234, 0x2000 | (x << 4) | seg, 0x0101, 0x4344, 0, ebd, 3, ed))
+            else:
+                o.append(P(0x1234, 0x2000 | (x << 4) | seg, 0x4142, 0x4344, 0, ebc, ec, ed))
+        o += [P(0x1234, 0x2000 | ((1 - x) << 4) | 2, 0x4546, 0x4748), P(0x1234, 0x2000 | (x << 4) | 3, 0x0101, 0x0101, 0, 0, 3, 3), "q"]
+        return o
+    combos = []
+    for target in (255, 256, 257, 511, 512):
+        half, odd = divmod(target, 2)
+        if odd: continue                                   # cells come in pairs of equal level: only even sums are reachable
+        for k in range(0, 16):
+            rest = half - 20 * k
+            for a in lvl:
+                b = rest - a
+                if b in lvl and a <= b:
+                    combos.append([(10, 10)] * k + [(a, b)])
+    for g in combos[:24]:
+        out += scenario(g, 0) + scenario(g, 1)
+    for ncells in (1, 2, 15, 16, 31, 32):                  # number of segments holding text
+        out += scenario([(10, 10)] * ncells, 0)
     return out
 
 def sweep_block_c(stride=1, phase=0):
@@ -464,6 +556,16 @@ def sweep_block_c(stride=1, phase=0):
                 out.append(P(0x1234, 0x0000, c, 0x2020))
             if c % 4096 == 0:
                 out.append("clear")
+        out.append("clear")
+        # the same values once more in a scattered order (a fixed permutation of the 16-bit values), each pair received once, then
+        # the whole pass again: in the ascending pass above the second code of a pair is (almost) always on the list already
+        # when its pair arrives, and the first code (almost) never is
+        for rep in range(2):
+            for i in range(phase % stride, 65536, stride):
+                c = (i * 40503 + 12345) % 65536
+                out.append(P(0x1234, 0x0000 | (i & 3), c, 0x2020))
+                if i % 256 < stride and rep == 0:
+                    out.append(P(0x1234, 0x0000, c, 0x2020))          # now and then twice in a row
         out.append("clear")
         for c in range(phase % stride, 65536, stride):
             out.append(P(0x5234, 0x1000, c, 0))
@@ -530,6 +632,11 @@ def sweep_ct(stride=1, phase=0):
         for (hour, minute) in ((0, 0), (0, 29), (11, 59), (12, 0), (23, 30), (23, 59)):
             for off in range(64):
                 out.append(g(mjd, hour, minute, off))
+    # the same day, hour and offset again with minutes on either side of the half hour (and the neighbouring day in between)
+    for mjd in (51603, 60275, 60369, 88128, 131071, 0):
+        for hour in (0, 23, 12):
+            for off in range(64):
+                out += [g(mjd, hour, 15, off), g(mjd, hour, 45, off), g(mjd + 1 if mjd < 131071 else mjd - 1, hour, 45, off), g(mjd, hour, 29, off), g(mjd, hour, 30, off)]
     # gates: version B, errors in B/C/D
     for mjd in (0, 60275, 131071):
         out += [g(mjd, 12, 30, 2, ver=1), g(mjd, 12, 30, 2, eb=1), g(mjd, 12, 30, 2, ec=1), g(mjd, 12, 30, 2, ed=1), g(mjd, 12, 30, 2, ed=3)]
